@@ -136,13 +136,16 @@ def run_campaign(pid, p, eng, binp, tier, seed, scratch, exclude, bins_all=None)
                    "--size", str(cfg.get("size", 100))]
             if cfg.get("enum") and i == 0:
                 cmd += ["--enum", str(cfg["enum"])]
-            if cfg.get("budget"):
-                cmd += ["--budget", str(cfg["budget"])]
+            # the harness stops generating by itself (and writes its statistics) well before the driver's timeout would
+            # kill it: on a loaded machine a campaign ends short ("budget exhausted", inconclusive), never as an error
+            cmd += ["--budget", str(cfg.get("budget") or int(cfg.get("timeout", 3600) * 0.8))]
             if eng.get("only"):
                 cmd += ["--only", eng["only"]]
         else:
             cmd = [binp] + [str(a).replace("{out}", out).replace("{seed}", str(seed * 1000 + i)).replace("{i}", str(i))
                             .replace("{procs}", str(procs)).replace("{verif}", VERIF).replace("{scratch}", scratch) for a in cfg["args"]]
+            if not any(str(a).startswith("-max_total_time") for a in cfg["args"]):
+                cmd.append("-max_total_time=%d" % int(cfg.get("timeout", 3600) * 0.8))   # libFuzzer then exits normally and the target writes its statistics
         cmds.append(cmd)
     extra = dict(eng.get("env", {}))
     extra["VERIF_EXCLUDE"] = ",".join(exclude)
@@ -441,6 +444,11 @@ def run(pid, p, a, seed, t0, scratch):
         if any("timed out" not in e for e in errors):
             return 3
     min_eval = p.get("min_evaluations", {}).get(a.tier, 1)
+    if total["budget_exhausted"]:
+        # a time budget was hit (loaded machine): the run is shorter than planned - inconclusive beyond what it covered, which
+        # the evidence states; only a run that covered next to nothing is treated as a broken check
+        print("note: a time budget was exhausted; the run covered %d evaluations (planned at least %d)" % (total["evaluations"], min_eval))
+        min_eval = max(1, min_eval // 50)
     if total["evaluations"] < min_eval or nt < 2:
         print("HARNESS-ERROR: check ran vacuously (%d evaluations, %d non-trivial; need >= %d)" %
               (total["evaluations"], nt, min_eval))
